@@ -702,6 +702,9 @@ func runProject(p pProject) (out projOut) {
 			if err != nil {
 				return routesOut{Err: "no file written"}
 			}
+			if keep := os.Getenv("VH_KEEP"); keep != "" {
+				os.WriteFile(filepath.Join(keep, "proj_routes_"+e+".go.txt"), b, 0o644)
+			}
 			return extractRoutes(e, string(b))
 		}()
 		res.Routes[e] = ro
